@@ -1,2 +1,147 @@
-(* C07 - closing theorems only. *)
-From Slim Require Import Varint Proto Semver Frame Instance Wire.
+(* C07 - incompatible versions and interrupted writes are rejected, never
+   half-loaded.  Closing theorems only.
+
+   Layer: the wire model (Varint, Proto, Semver, Frame, Instance, Wire) on the
+   constants regenerated from /repo.  A stream is a sequence of pbcmpl sections
+     frame ver body = Version[16] NUL padded | uint64 LE 32 | uint64 LE len(body) | body
+   one section for the current and the 0.5.10/0.5.11 layouts, three sections
+   (children, steps, leaves) for the layouts before 0.5.10.
+
+   What is NOT proved here (see checks/C07.json, statement_status):
+   * "answers lookups and scans as an empty trie" is proved as "st.inner is the
+     empty message; vars and levels keep their previous values"
+     (C07_empty_after_*_partial).  That every lookup and scan on the empty message
+     finds nothing needs Model.v's queries on a bit-level message; the oracle
+     checks it on the real code after every rejected load.
+   * that the archived legacy files ARE sequences of framed sections is checked by
+     the correspondence (the model reads every fixture completely), not proved. *)
+From Coq Require Import List NArith ZArith Bool.
+From Coq.Strings Require Import Byte.
+From Coq.Strings Require String.
+From Slim Require Import Varint VarintProofs Proto ProtoProofs Semver Frame FrameProofs Instance InstanceProofs Wire WireProofs.
+Import ListNotations.
+Open Scope N_scope.
+
+(* ---- interrupted writes ------------------------------------------------------------------ *)
+(* current layout: EVERY strict prefix of EVERY Marshal() output is rejected, with
+   exactly this error (io.ReadFull semantics on the header, then on the body) *)
+Theorem C07_cut : forall m s cut,
+  blen (ser_slim m) < two63 -> marshal_gen m = Some s -> (cut < length s)%nat ->
+  unmarshal_gen (firstn cut s) =
+  if (cut =? 0)%nat then OErr SHeader CEOF
+  else if (cut <? 32)%nat then OErr SHeader CUnexpectedEOF
+  else if (cut =? 32)%nat then OErr SInner CEOF
+  else OErr SInner CUnexpectedEOF.
+Proof. exact cut_gen. Qed.
+Print Assumptions C07_cut.
+
+(* any one-section stream (current, 0.5.10, 0.5.11 - or any other version string in
+   the header, any body bytes): every strict prefix is an error, never a load or a panic *)
+Theorem C07_cut_one_section : forall ver body s cut,
+  frame ver body = Some s -> blen body < two63 -> (cut < length s)%nat ->
+  is_err (unmarshal_gen (firstn cut s)) = true.
+Proof. exact cut_single_gen. Qed.
+Print Assumptions C07_cut_one_section.
+
+(* three-section legacy streams (any section contents): every strict prefix - a cut
+   inside any of the three headers or bodies - is an error *)
+Theorem C07_cut_three_sections : forall v1 b1 s1 v2 b2 s2 v3 b3 s3 cut,
+  three_path compat_gen cur_gen v1 ->
+  frame v1 b1 = Some s1 -> frame v2 b2 = Some s2 -> frame v3 b3 = Some s3 ->
+  blen b1 < two63 -> blen b2 < two63 -> blen b3 < two63 ->
+  (cut < length (s1 ++ s2 ++ s3))%nat ->
+  is_err (unmarshal_gen (firstn cut (s1 ++ s2 ++ s3))) = true.
+Proof. exact cut_three_gen. Qed.
+Print Assumptions C07_cut_three_sections.
+
+(* ---- the version gate ---------------------------------------------------------------------- *)
+(* the compatible set, characterised: the 16-byte field with its trailing NULs
+   removed must parse as MAJOR.MINOR.PATCH[+build] (semver.Parse: exactly three
+   numeric parts, no leading zeros, < 2^64; no pre-release part) and name one of
+   the six listed releases *)
+Theorem C07_compatible_set : forall ver,
+  is_compatible ver compat_gen = Some true <-> listed ver.
+Proof. exact compatible_gen_iff. Qed.
+Print Assumptions C07_compatible_set.
+
+(* every stream (any length >= 32, any content) whose version field is outside
+   that set is rejected with ErrIncompatible, before any body byte is looked at *)
+Theorem C07_version : forall b,
+  (32 <= length b)%nat -> ~ listed (strip_nul (firstn 16 b)) -> unmarshal_gen b = OIncompatible.
+Proof. exact version_gen. Qed.
+Print Assumptions C07_version.
+
+(* ---- never half-loaded ------------------------------------------------------------------------ *)
+Theorem C07_empty_after_cut_partial :
+  forall (Vars Levels : Type) (init_vars : slim -> Vars) (init_levels : slim -> Levels)
+         (reset_levels : Levels) (conv510 : slim -> slim) (conv3 : list byte -> list byte -> list byte -> slim)
+         (st : inst Vars Levels) m s cut,
+  blen (ser_slim m) < two63 -> marshal_gen m = Some s -> (cut < length s)%nat ->
+  emptied Vars Levels st
+    (fst (step compat_gen cur_gen Vars Levels init_vars init_levels reset_levels conv510 conv3 st
+               (OpUnmarshal (firstn cut s)))).
+Proof. exact empty_after_cut_gen. Qed.
+Print Assumptions C07_empty_after_cut_partial.
+
+Theorem C07_empty_after_incompatible_partial :
+  forall (Vars Levels : Type) (init_vars : slim -> Vars) (init_levels : slim -> Levels)
+         (reset_levels : Levels) (conv510 : slim -> slim) (conv3 : list byte -> list byte -> list byte -> slim)
+         (st : inst Vars Levels) b,
+  (32 <= length b)%nat -> ~ listed (strip_nul (firstn 16 b)) ->
+  emptied Vars Levels st
+    (fst (step compat_gen cur_gen Vars Levels init_vars init_levels reset_levels conv510 conv3 st (OpUnmarshal b))).
+Proof. exact empty_after_incompatible_gen. Qed.
+Print Assumptions C07_empty_after_incompatible_partial.
+
+(* every rejected load except a protobuf error inside a completely read body
+   leaves the empty message (general form, any layout) *)
+Theorem C07_rejected_load_state_partial :
+  forall (Vars Levels : Type) (init_vars : slim -> Vars) (init_levels : slim -> Levels)
+         (reset_levels : Levels) (conv510 : slim -> slim) (conv3 : list byte -> list byte -> list byte -> slim)
+         (st : inst Vars Levels) b,
+  clean_reject (unmarshal compat_gen cur_gen b) = true ->
+  let st' := fst (step compat_gen cur_gen Vars Levels init_vars init_levels reset_levels conv510 conv3 st (OpUnmarshal b)) in
+  i_inner _ _ st' = IMsg empty_slim /\ i_vars _ _ st' = i_vars _ _ st /\ i_levels _ _ st' = i_levels _ _ st.
+Proof. exact (rejected_load_state compat_gen cur_gen). Qed.
+Print Assumptions C07_rejected_load_state_partial.
+
+(* ---- the constants the model was written for, and concrete version strings ----------------- *)
+Definition s (x : String.string) : list byte := String.list_byte_of_string x.
+Delimit Scope string_scope with string.
+Arguments s x%string.
+
+Example ex_constants :
+  cur_gen = s "0.5.12" /\
+  compat_gen = [s "==1.0.0"; s "==0.5.8"; s "==0.5.9"; s "==0.5.10"; s "==0.5.11"; s "==0.5.12"] /\
+  specs_in_fragment compat_gen = true.
+Proof. vm_compute. repeat split; reflexivity. Qed.
+
+Example ex_versions :
+  map (fun v => is_compatible (s v) compat_gen)
+      ["0.5.12"; "0.5.11"; "0.5.10"; "0.5.9"; "0.5.8"; "1.0.0"; "0.5.12+x"; "0.5.12+a-b.7";
+       "0.5.7"; "0.5.0"; "0.5.13"; "0.5.100"; "0.6.0"; "1.0.1"; "2.0.0";
+       "0.5.12-rc1"; "0.5.12-"; "0.5.12+"; "0.5.012"; "v0.5.12"; "0.5"; "0.5.12.0"; ""; "0.5.12 ";
+       "18446744073709551616.0.0"; "1234567890.12.12"]%string
+  = [Some true; Some true; Some true; Some true; Some true; Some true; Some true; Some true;
+     Some false; Some false; Some false; Some false; Some false; Some false; Some false;
+     Some false; Some false; Some false; Some false; Some false; Some false; Some false; Some false; Some false;
+     Some false; Some false].
+Proof. vm_compute. reflexivity. Qed.
+
+(* the three-section path is taken by exactly the legacy header versions *)
+Example ex_three_path :
+  three_path compat_gen cur_gen (s "1.0.0") /\ three_path compat_gen cur_gen (s "0.5.8") /\
+  three_path compat_gen cur_gen (s "0.5.9").
+Proof. repeat split; left; vm_compute; reflexivity. Qed.
+
+(* the empty trie: the 32-byte header alone; every cut of it is a header error *)
+Example ex_empty_stream :
+  marshal_gen empty_slim =
+  Some (s "0.5.12" ++ repeat x00 10 ++ [x20; x00; x00; x00; x00; x00; x00; x00] ++ repeat x00 8).
+Proof. vm_compute. reflexivity. Qed.
+
+(* a 16-byte version field without any NUL is read as a 16-byte string *)
+Example ex_full16 :
+  unmarshal_gen (s "0.5.13+abcdefghi" ++ le64 32 ++ le64 0) = OIncompatible /\
+  unmarshal_gen (s "0.5.12+abcdefghi" ++ le64 32 ++ le64 0) = OLoaded empty_slim.
+Proof. vm_compute. split; reflexivity. Qed.
